@@ -11,6 +11,8 @@ open Hv.Lock
 structure Sess where
   key : String
   short : Bool
+  /-- arrival number on its own key (the lock id when ids are per-queue tickets) -/
+  ticket : Nat := 0
   held : Bool := false
   cancelled : Bool := false
   acquired : Bool := false
@@ -21,6 +23,7 @@ structure DSt where
   cfg : Cfg
   gw : GwCfg
   withoutCancel : Bool
+  idsUnique : Bool := true
   keys : List (String × St) := []
   sess : List Sess := []
 
@@ -67,7 +70,7 @@ def out (d : DSt) (k : String) (msg : String) : DSt × String :=
   let s := getKey d k
   (d, s!"{msg} {render s}{flag d.cfg s}")
 
-def roundEff (t : Int) : Int := (t + 125) / 250 * 250
+def roundEff (t : Int) : Int := t / 1000 * 1000
 
 def stepLine (d : DSt) (line : String) : DSt × String :=
   match words line with
@@ -75,12 +78,13 @@ def stepLine (d : DSt) (line : String) : DSt × String :=
   | "lock" :: k :: ttl :: rest =>
     let hold := rest == ["hold"]
     let n := d.sess.length + 1
-    let d := { d with sess := d.sess ++ [{ key := k, short := ttl == "short", held := hold }] }
+    let tk := (d.sess.filter (·.key == k)).length + 1
+    let d := { d with sess := d.sess ++ [{ key := k, short := ttl == "short", ticket := tk, held := hold }] }
     let d := applyAct d k (.enqueue n)
     if hold then out d k s!"enq {n} held"
     else if n ∈ (getKey d k).q.ready then
       let d := applyAct d k (.acquire n)
-      let d := setSess d n { key := k, short := ttl == "short", acquired := true }
+      let d := setSess d n { key := k, short := ttl == "short", ticket := tk, acquired := true }
       out d k s!"enq {n} acq"
     else out d k s!"enq {n} wait"
   | "go" :: ns :: obs =>
@@ -126,6 +130,25 @@ def stepLine (d : DSt) (line : String) : DSt × String :=
       let res := if unlockOk (getKey d k) n then "ok" else "err"
       let d := applyAct d k (.unlock n)
       out (settle d k) k s!"unlock {n} {res}"
+  | ["unlockx", ns, k] =>
+    match ns.toNat?.bind (fun n => (getSess d n).map (fun x => (n, x))) with
+    | none => (d, "skip")
+    | some (n, x) =>
+      if !x.acquired || x.key == k then (d, "skip") else
+      if d.idsUnique then out d k s!"unlockx {n} {k} err"
+      else
+        -- per-queue tickets: the id names whoever has the same arrival number on key `k`
+        let victim := (List.range d.sess.length).find? fun i =>
+          match d.sess[i]? with
+          | some y => y.key == k && y.ticket == x.ticket && decide ((i + 1) ∈ (getKey d k).q.callers)
+          | none => false
+        match victim with
+        | none => out d k s!"unlockx {n} {k} err"
+        | some i =>
+          let s := getKey d k
+          let d := setKey d k { s with q := (s.q.rem d.cfg (i + 1)).1 }
+          let (d, msg) := out (settle d k) k s!"unlockx {n} {k} ok"
+          (d, msg ++ "\t#F:C14-foreign-id-unlock")
   | ["unlockraw", k, _] => out d k "unlockraw err"
   | ["expire", ns] =>
     match ns.toNat?.bind (fun n => (getSess d n).map (fun x => (n, x))) with
@@ -147,6 +170,66 @@ def stepLine (d : DSt) (line : String) : DSt × String :=
   | ["gwcancel"] => (d, if d.withoutCancel then "gwcancel kept acq" else "gwcancel removed err")
   | _ => (d, "bad-op")
 
+/-! ### Trace inclusion (domain C14s): replay a log produced by the real lock under genuine
+    concurrency.  Hook events of one queue are logged under that queue's mutex, so every line must be
+    a step the model can take, with the same observable values. -/
+
+structure TSt where
+  cfg : Cfg
+  keys : List (Nat × St) := []
+  /-- callers whose context-cancel branch has announced itself (`lock.cancel`) -/
+  cancelling : List Nat := []
+  /-- `acq` lines that arrived before the `rm` that grants them: `lock.acq` is logged by the woken
+      caller, `lock.rm` by the remover after it has closed the channel — both orders occur -/
+  earlyAcq : List (Nat × Nat) := []
+
+def tget (t : TSt) (k : Nat) : St := (t.keys.lookup k).getD init
+def tset (t : TSt) (k : Nat) (s : St) : TSt := { t with keys := (k, s) :: t.keys.filter (·.1 != k) }
+
+def tflag (cfg : Cfg) (s : St) : String := flag cfg s
+
+def tstep (t : TSt) (line : String) : TSt × String :=
+  match (words line).map (fun w => (w, w.toNat?)) with
+  | [("case", _), _] => ({ cfg := t.cfg }, line)
+  | [("enq", _), (_, some k), (_, some n), (_, some g)] =>
+    let s := tget t k
+    match step t.cfg s (.enqueue n) with
+    | some s' =>
+      let granted := decide (n ∈ s'.q.ready)
+      if granted == (g == 1) then (tset t k s', "ok" ++ tflag t.cfg s')
+      else (tset t k s', s!"bad enq: model grants={granted}")
+    | none => (t, "bad enq: caller number not fresh in the model")
+  | [("acq", _), (_, some k), (_, some n)] =>
+    let s := tget t k
+    match step t.cfg s (.acquire n) with
+    | some s' => (tset t k s', "ok" ++ tflag t.cfg s')
+    | none =>
+      -- allowed only for a queued caller directly behind the head: the very next removal must grant it
+      if s.q.callers.drop 1 |>.head? |> (· == some n) then ({ t with earlyAcq := (k, n) :: t.earlyAcq }, "ok")
+      else (t, s!"bad acq: caller {n} is not granted in the model (ready={showNatList s.q.ready})")
+  | [("cancel", _), (_, some _), (_, some n)] => ({ t with cancelling := n :: t.cancelling }, "ok")
+  | [("rm", _), (_, some k), (_, some n), (_, some f)] =>
+    let s := tget t k
+    let found := decide (n ∈ s.q.callers)
+    let a := if t.cancelling.contains n then Act.cancel n
+             else if n ∈ s.acquired then Act.unlock n   -- (own unlock, stale unlock or TTL: the same removal)
+             else Act.unlock n
+    -- n = 0: an id the queue never issued (foreign)
+    match step t.cfg s a with
+    | some s' =>
+      let t' := tset { t with cancelling := t.cancelling.filter (· != n) } k s'
+      -- an `acq` that was logged early for this queue must be enabled now
+      let (t', late) := t'.earlyAcq.foldl (fun (acc : TSt × String) (e : Nat × Nat) =>
+        if e.1 != k then acc else
+        match step acc.1.cfg (tget acc.1 k) (.acquire e.2) with
+        | some s2 => (tset { acc.1 with earlyAcq := acc.1.earlyAcq.filter (· != e) } k s2, acc.2)
+        | none => if found then (acc.1, s!"bad acq: caller {e.2} acquired but this removal does not grant it") else acc) (t', "")
+      if late != "" then (t', late) else
+      if found == (f == 1) then (t', "ok" ++ tflag t.cfg (tget t' k)) else (t', s!"bad rm: model found={found}")
+    | none => (t, s!"bad rm: removal of caller {n} is not a step of the model (it is queued and never acquired)")
+  | [("hang", _)] => (t, "bad hang: a caller was never served")
+  | _ => (t, "bad-op")
+
 def parseWake (s : String) : Wake :=
   if s == "last" then .last else if s == "none" then .none else .next
 
@@ -154,7 +237,11 @@ def run (args : List String) : IO UInt32 := do
   let kv := parseArgs args
   let cfg : Cfg := { wake := parseWake (arg kv "wake"), wakeOnlyIfHead := arg kv "wakeOnlyIfHead" != "no" }
   let gw : GwCfg := { ttlThresh := ((arg kv "ttlThresh").toInt?).getD 0, ttlFloor := ((arg kv "ttlFloor").toInt?).getD 0 }
-  lineLoop stepLine { cfg := cfg, gw := gw, withoutCancel := arg kv "gwWithoutCancel" != "no" }
+  if arg kv "mode" == "trace" then
+    lineLoop tstep { cfg := cfg }
+    return 0
+  lineLoop stepLine { cfg := cfg, gw := gw, withoutCancel := arg kv "gwWithoutCancel" != "no",
+                      idsUnique := arg kv "idSource" != "perQueueCounter" }
   return 0
 
 end Driver.C14
